@@ -9,6 +9,7 @@ Require Import Zrs.lib.RsPrelude Zrs.gen.Generated Zrs.model.FrameEnc.
 Require Import Zrs.proofs.C14_Tables Zrs.proofs.C14_Headers Zrs.proofs.C15_Frame Zrs.proofs.C02_Roundtrip.
 Require Import Zrs.model.FseDec Zrs.model.BlockDec Zrs.model.Matcher Zrs.model.SeqSection Zrs.model.BlockEnc.
 Require Import Zrs.proofs.C06_Drain Zrs.proofs.C17_Matcher Zrs.proofs.C17_Shape Zrs.proofs.C02_Glue Zrs.proofs.C02_FastBlock.
+Require Import Zrs.model.Headers Zrs.model.HufDec Zrs.proofs.C02_BlockGen Zrs.proofs.C02_FastGen.
 Open Scope Z_scope.
 
 (** any block encoder / matcher: the emitted block is the raw block unless the compressed body is strictly
@@ -86,6 +87,32 @@ Theorem C16_any_valid_parse_block_with_raw_literals : forall ts tail H data dl d
     t_max_symbol (fs_ml (sc_fse sc')) = MAX_MATCH_LENGTH_CODE.
 Proof. exact fastest_raw_literal_block. Qed.
 
+(** ... and with ANY literals-section encoding the decoder reads back ([hdr], [payload]: raw, Huffman-coded with a
+    description, or treeless -- see C13_huffman_literals_section_decodes): the block body decodes to the block *)
+Theorem C16_any_valid_parse_block : forall hdr payload ty regen comp streams sc ht' lits,
+  (forall rest, lit_header_parse (hdr ++ rest) = ROk (zlen hdr, ty, regen, comp, streams)) ->
+  match comp with Some x => x | None => if ty =? 1 then 1 else regen end = zlen payload ->
+  regen = zlen lits /\ regen <= MAX_BLOCK_SIZE ->
+  decode_literals {| ls_type := ty; ls_regen := regen; ls_comp := comp; ls_streams := streams |} (sc_huf sc) payload = ROk (ht', lits, zlen payload) ->
+  forall ts tail H data dl do dm sp pre,
+  lits = mseqs_lits (ts ++ tail) ->
+  Forall is_triple ts -> (tail = [] \/ exists l, tail = [MLit l]) -> Forall long_enough (ts ++ tail) ->
+  apply_seqs H (ts ++ tail) = Some (H ++ data) -> Z.of_nat (length data) <= MAX_BLOCK_SIZE ->
+  seq_part dl do dm (mseqs_seqs (ts ++ tail)) = ROk sp ->
+  (mseqs_seqs (ts ++ tail) <> [] -> section_hyps_b dl do dm (mseqs_seqs (ts ++ tail)) = true) ->
+  t_max_symbol (fs_ll (sc_fse sc)) = MAX_LITERAL_LENGTH_CODE -> t_max_symbol (fs_of (sc_fse sc)) = MAX_OFFSET_CODE ->
+  t_max_symbol (fs_ml (sc_fse sc)) = MAX_MATCH_LENGTH_CODE ->
+  db_wf (sc_buf sc) -> db_rev (sc_buf sc) = rev H ++ pre -> hist3 (sc_hist sc) ->
+  exists sc',
+    decompress_block (zlen (hdr ++ payload ++ sp)) sc (hdr ++ payload ++ sp) = ROk sc' /\
+    db_wf (sc_buf sc') /\ db_rev (sc_buf sc') = rev (H ++ data) ++ pre /\ hist3 (sc_hist sc') /\
+    sc_huf sc' = ht' /\ db_dict (sc_buf sc') = db_dict (sc_buf sc) /\ db_window (sc_buf sc') = db_window (sc_buf sc) /\
+    db_hashed_rev (sc_buf sc') = db_hashed_rev (sc_buf sc) /\
+    t_max_symbol (fs_ll (sc_fse sc')) = MAX_LITERAL_LENGTH_CODE /\ t_max_symbol (fs_of (sc_fse sc')) = MAX_OFFSET_CODE /\
+    t_max_symbol (fs_ml (sc_fse sc')) = MAX_MATCH_LENGTH_CODE.
+Proof. exact valid_parse_block. Qed.
+
+Print Assumptions C16_any_valid_parse_block.
 Print Assumptions C16_any_valid_parse_executes.
 Print Assumptions C16_any_valid_parse_block_with_raw_literals.
 Print Assumptions C16_fallback_decision.
